@@ -359,6 +359,7 @@ class Interp:
         is_gen = getattr(func, "_is_gen", None)
         if is_gen is None:
             is_gen = func._is_gen = any(isinstance(x, (ast.Yield, ast.YieldFrom)) for st in func.node.body
+                                        if not isinstance(st, (ast.FunctionDef, ast.AsyncFunctionDef, ast.ClassDef))
                                         for x in walk_shallow(st))
         if is_gen:
             env["__yields__"] = []
